@@ -31,6 +31,17 @@ CLAIMED["C02"] = dict(
     technique="jaxpr symbolic execution + polynomial hypotheses + z3 QF_LRA (XL certificates); z3 NRA refutation; float64 replay",
     design="§4 C02")
 
+CLAIMED["C03"] = dict(
+    text="Bounded symbolic model checking of the real smoother code: one smoother step from an ARBITRARY state (incl. an "
+         "arbitrary previous backward kernel) yields the exact filtering marginal and the exact backward kernel in "
+         "joint-law form (fixed-interval) resp. its exact composition with the previous kernel (fixed-point); "
+         "evaluate_marginals on arbitrary kernels is the backward recursion; solve_fixed_grid end to end returns the "
+         "filtering marginal at the final time as terminal marginal, the backward recursion for all earlier times, and "
+         "a backward factorisation equal to the step kernels (uncalibrated and MLE). All by z3 QF_LRA unsat on linearised "
+         "polynomial-identity obligations for all three factorisations.",
+    technique="jaxpr symbolic execution + polynomial hypotheses + z3 QF_LRA (XL certificates); z3 NRA refutation; float64 replay",
+    design="§4 C03")
+
 DIRECT_NOTE = ("Assumes real arithmetic and polynomial inputs with symbolic coefficients up to the stated degree/size. "
                "Trusted base: CPython+JAX tracing (jet/jvp/vmap are JAX's own), the jxs interpreter and polynomial "
                "arithmetic (re-validated every run against the real JAX runtime), z3.")
